@@ -38,7 +38,7 @@ fn meta() -> Meta {
     Meta {
         id: "C04",
         level: "model_checking",
-        rule: "E1: every word w t with w over {W(5), W(cap-1), W(cap+1), W(3cap), F, CloneDrop} up to length 3 (quick) / 4 (thorough) and t in {shutdown(), drop of the last handle}, for write mode {Direct, SupportCapture, BufferDontFlush(32), BufferAndFlush(32), Async{1,16}} x output {file, file+Numbers, file+TimestampsDirect, custom writer, stdout, stderr}; E2: 2-3 writes then shutdown / drop against the async writer thread, the logger's flusher thread (tick budget 2) and a concurrent second shutdown from a handle clone, all schedules with <= 2 (quick) / 3 (thorough) preemptions; states = distinct (configuration, position, pending-in-buffer bytes) model states, transitions = operations + scheduling decisions; non-trivial = a write larger than the capacity or a clone-drop before later writes; plus a compressing rotation as seventh output kind and an auxiliary free-running two-drop pass (sampling); E2 also: flush() racing with the log calls of another thread, then flush() again and immediate read-back; E2 also: log_to_file_and_writer with an asynchronous second FileLogWriter whose file is read after shutdown / drop",
+        rule: "E1: every word w t with w over {W(5), W(cap-1), W(cap+1), W(3cap), F, CloneDrop, the one-character record \"S\"} up to length 3 (quick) / 4 (thorough) and t in {shutdown(), drop of the last handle, drop of the last handle while its thread unwinds from a panic}, for write mode {Direct, SupportCapture, BufferDontFlush(32), BufferAndFlush(32), Async{1,16}} x output {file, file+Numbers, file+TimestampsDirect, custom writer, stdout, stderr}; E2: 2-3 writes then shutdown / drop against the async writer thread, the logger's flusher thread (tick budget 2) and a concurrent second shutdown from a handle clone, all schedules with <= 2 (quick) / 3 (thorough) preemptions; states = distinct (configuration, position, pending-in-buffer bytes) model states, transitions = operations + scheduling decisions; non-trivial = a write larger than the capacity or a clone-drop before later writes; plus a compressing rotation as seventh output kind and an auxiliary free-running two-drop pass (sampling); E2 also: flush() racing with the log calls of another thread, then flush() again and immediate read-back; E2 also: log_to_file_and_writer with an asynchronous second FileLogWriter whose file is read after shutdown / drop",
         assumptions: vec![
             "output is read directly after the call returns (no sleep)".into(),
             "for the custom writer the observable is that flush / shutdown was propagated after the last write".into(),
@@ -54,11 +54,16 @@ enum Op {
     W(usize),
     F,
     CloneDrop,
+    /// a record that consists of the single character "S" (what the asynchronous writers use
+    /// as a shutdown message on their channel)
+    WS,
 }
 #[derive(Clone, Copy, Debug, PartialEq, Eq, Hash)]
 enum Term {
     Shutdown,
     DropLast,
+    /// the last handle is dropped while its thread unwinds from a panic
+    DropLastUnwinding,
 }
 #[derive(Clone, Copy, Debug, PartialEq, Eq, Hash)]
 enum OutK {
@@ -78,7 +83,7 @@ const OUTS: [OutK; 7] = [OutK::File, OutK::FileNum, OutK::FileTsD, OutK::Writer,
 const MODES: [ModeK; 5] = [ModeK::Direct, ModeK::SupportCapture, ModeK::BufDont(CAP), ModeK::BufFlush(CAP, 3_600_000), ModeK::Async(1, 16, 0)];
 
 fn alphabet() -> Vec<Op> {
-    vec![Op::W(5), Op::W(CAP - 1), Op::W(CAP + 1), Op::W(3 * CAP), Op::F, Op::CloneDrop]
+    vec![Op::W(5), Op::W(CAP - 1), Op::W(CAP + 1), Op::W(3 * CAP), Op::F, Op::CloneDrop, Op::WS]
 }
 fn depth(tier: &str) -> usize {
     if tier == "quick" {
@@ -89,13 +94,13 @@ fn depth(tier: &str) -> usize {
 }
 
 fn e1_units() -> usize {
-    MODES.len() * OUTS.len() * 2
+    MODES.len() * OUTS.len() * 3
 }
 fn units(_tier: &str) -> usize {
     e1_units() + sched_cases().len() + 1
 }
 fn bounds(tier: &str) -> Value {
-    json!({"e1_configurations": MODES.len() * OUTS.len(), "e1_word_length": depth(tier), "terminal_ops": 2, "e2_harnesses": sched_cases().iter().map(|c| c.name).collect::<Vec<_>>(), "e2_preemption_bound": if tier == "quick" { 2 } else { 3 }, "stress_pass": format!("{} free-running rounds of two threads dropping the last two handle clones at the same time (sampling; auxiliary)", stress_rounds(tier))})
+    json!({"e1_configurations": MODES.len() * OUTS.len(), "e1_word_length": depth(tier), "terminal_ops": 3, "e2_harnesses": sched_cases().iter().map(|c| c.name).collect::<Vec<_>>(), "e2_preemption_bound": if tier == "quick" { 2 } else { 3 }, "stress_pass": format!("{} free-running rounds of two threads dropping the last two handle clones at the same time (sampling; auxiliary)", stress_rounds(tier))})
 }
 
 struct World {
@@ -252,6 +257,10 @@ fn run_word(mode: ModeK, out: OutK, word: &[Op], term: Term) -> Result<Vec<usize
                     accepted.push(line);
                     lg::log_info(&*logger, &msg);
                 }
+                Op::WS => {
+                    accepted.push(b"S\n".to_vec());
+                    lg::log_info(&*logger, "S");
+                }
                 Op::F => {
                     handle.flush();
                     if !mode.is_async() {
@@ -276,8 +285,17 @@ fn run_word(mode: ModeK, out: OutK, word: &[Op], term: Term) -> Result<Vec<usize
                 drop(handle);
                 ("missing-after-drop", "after the last handle was dropped")
             }
+            Term::DropLastUnwinding => {
+                // resume_unwind does not call the panic hook; std::thread::panicking() is true
+                // while the handle is dropped
+                let _ = std::panic::catch_unwind(std::panic::AssertUnwindSafe(move || {
+                    let _h = handle;
+                    std::panic::resume_unwind(Box::new("scenario: unwinding with the last handle"));
+                }));
+                ("missing-after-drop", "after the last handle was dropped by a thread that unwinds from a panic")
+            }
         };
-        let clause = if clone_dropped && word.iter().rposition(|o| *o == Op::CloneDrop) < word.iter().rposition(|o| matches!(o, Op::W(_))) { "lost-after-clone-drop" } else { clause };
+        let clause = if clone_dropped && word.iter().rposition(|o| *o == Op::CloneDrop) < word.iter().rposition(|o| matches!(o, Op::W(_) | Op::WS)) { "lost-after-clone-drop" } else { clause };
         expect_all(&w, &accepted, clause, when)?;
         drop(logger);
         let errs = w.env.errlines();
@@ -406,7 +424,7 @@ fn flw_direct_body(sc: SCase) -> Arc<dyn Fn(&Arc<Sched>) -> SObs + Send + Sync> 
         }
         match sc.term {
             Term::Shutdown => flw.shutdown(),
-            Term::DropLast => {}
+            Term::DropLast | Term::DropLastUnwinding => {}
         }
         drop(flw);
         let got = std::fs::read(env.dir.join("app.log")).unwrap_or_default();
@@ -484,7 +502,7 @@ fn sched_body(sc: SCase) -> Arc<dyn Fn(&Arc<Sched>) -> SObs + Send + Sync> {
                 handle.shutdown();
                 ("missing-after-shutdown", "when shutdown() returned")
             }
-            Term::DropLast => {
+            Term::DropLast | Term::DropLastUnwinding => {
                 drop(handle);
                 ("missing-after-drop", "when the drop of the last handle returned")
             }
@@ -590,8 +608,8 @@ fn run_sched_unit(tier: &str, idx: usize, out: &mut Out) {
 }
 
 fn decode(unit: usize) -> (ModeK, OutK, Term) {
-    let t = if unit % 2 == 0 { Term::Shutdown } else { Term::DropLast };
-    let u = unit / 2;
+    let t = [Term::Shutdown, Term::DropLast, Term::DropLastUnwinding][unit % 3];
+    let u = unit / 3;
     (MODES[u / OUTS.len()], OUTS[u % OUTS.len()], t)
 }
 
@@ -678,7 +696,7 @@ fn run_unit(tier: &str, unit: usize, out: &mut Out) {
                 out.state(&(unit, i, x));
             }
             let big = word.iter().any(|o| matches!(o, Op::W(l) if *l > CAP));
-            let cd = word.iter().position(|o| *o == Op::CloneDrop).is_some_and(|p| word[p..].iter().any(|o| matches!(o, Op::W(_))));
+            let cd = word.iter().position(|o| *o == Op::CloneDrop).is_some_and(|p| word[p..].iter().any(|o| matches!(o, Op::W(_) | Op::WS)));
             if big || cd {
                 out.nontrivial(&(unit, w));
             }
